@@ -7,6 +7,9 @@ import random
 import vlib
 import gen_store
 import gen_mc
+import gen_sim
+import simmon
+import subprocess
 import re
 
 
@@ -503,6 +506,77 @@ def suite_mc_staged(ctx, can_run_model):
         if len(runs) == 2 and runs[0]["collected"] and len(runs[0]["collected"]) >= 2 and len(runs[1]["checks"]) >= 4:
             ctx.nontrivial.add(sc_hash(sc))
             ctx.count("staged_with_2plus_starts")
+
+
+# ---------------------------------------------------------------------------------------------------
+# SIM suite (C01 sim half, C05, C06, C07 sim half, C08, C17)
+
+def fill_draws(raw):
+    """the model needs the simulation's random stream: regenerate it with the same crates (harness draws)"""
+    seeds = sorted(set(x[2] for x in raw))
+    dr = {}
+    for i in range(0, len(seeds), 200):
+        out = subprocess.run([vlib.HARNESS_BIN, "draws", str(gen_sim.NDRAWS)] + [str(s) for s in seeds[i:i + 200]],
+                             stdout=subprocess.PIPE).stdout.decode()
+        for l in out.strip().split("\n"):
+            if l:
+                dr[int(l.split()[0])] = " ".join(l.split()[1:])
+    return [(sc[0], sc[1], [("DRAWS " + dr[seed]) if l == "DRAWS" else l for l in sc[2]]) for (sc, feat, seed) in raw]
+
+
+def suite_sim(ctx, can_run_model, repeat=False):
+    rng = random.Random(ctx.seed * 1000003 + 43)
+    n = ctx.scale(500, 30000)
+    raw = [gen_sim.gen_scenario(rng, "y%d-%d" % (ctx.seed, j)) for j in range(n)]
+    scs = fill_draws(raw)
+    env = {"ASV_REPEAT": "1"} if repeat else None
+    impl = vlib.run_impl(scs, "sim-impl", env=env)
+    model = vlib.run_model(scs, "sim-model") if can_run_model else {}
+    impl2 = vlib.run_impl(scs, "sim-impl2") if repeat else None
+    ctx.clauses.update(simmon.CLAUSES)
+    for (sc, (rsc, feat, seed)) in zip(scs, raw):
+        sid = sc[1]
+        ctx.evaluations += 1
+        il = impl.get(sid, [])
+        for k, v in feat.items():
+            if v:
+                ctx.count("feat_" + k)
+        if "PANIC" in il:
+            ctx.count("impl_panics")
+        ctx.count("trace_entries", sum(1 for l in il if l.startswith("LOG")))
+        if can_run_model:
+            d = vlib.first_diff(il, model.get(sid, []))
+            if d is not None:
+                ctx.disagreements.append({"suite": "SIM model-vs-impl", "scenario": vlib.scenario_text(sc),
+                                          "diff": {"line": d[0], "impl": d[1], "model": d[2]}})
+            else:
+                ctx.validated += 1
+        for clause, detail in simmon.monitor(sc, il):
+            ctx.monitor_failures.append({"clause": clause, "detail": detail, "scenario": vlib.scenario_text(sc),
+                                         "impl": il[:300], "seed": ctx.seed, "suite": "SIM"})
+        if repeat:
+            ctx.clauses.update(["C01:in_process_repeat", "C01:cross_process_repeat"])
+            if any(l.startswith("REPEAT-DIFFERS") for l in il):
+                ctx.monitor_failures.append({"clause": "C01:in_process_repeat",
+                                             "detail": [l for l in il if l.startswith("REPEAT-DIFFERS")][0],
+                                             "scenario": vlib.scenario_text(sc), "impl": il[:300], "seed": ctx.seed,
+                                             "suite": "SIM"})
+            d2 = vlib.first_diff(il, impl2.get(sid, []))
+            if d2 is not None:
+                ctx.monitor_failures.append({"clause": "C01:cross_process_repeat",
+                                             "detail": "two OS processes give different histories: %s" % (d2,),
+                                             "scenario": vlib.scenario_text(sc), "impl": il[:300], "seed": ctx.seed,
+                                             "suite": "SIM"})
+        nlog = sum(1 for l in il if l.startswith("LOG"))
+        if nlog >= 15 and (feat["drop"] or feat["dupl"] or feat["corrupt"] or feat["crash"] or feat["netops"] or feat["timers"]):
+            ctx.nontrivial.add(sc_hash(sc))
+        if len(ctx.samples) < 2:
+            ctx.samples.append({"scenario": "\n".join(l for l in vlib.scenario_text(sc).split("\n") if not l.startswith("DRAWS")),
+                                "impl_observation_head": il[:8]})
+
+
+def suite_sim_repeat(ctx, can_run_model):
+    suite_sim(ctx, can_run_model, repeat=True)
 
 
 # ---------------------------------------------------------------------------------------------------
